@@ -765,6 +765,13 @@ func TestVerifCache(t *testing.T) {
 				must(json.Unmarshal(run.Replay, rp))
 			}
 			res = scenarioC12c(t, root, seed, rp, run.Tier)
+		case "c13":
+			var rp *c13Params
+			if len(run.Replay) > 0 {
+				rp = &c13Params{}
+				must(json.Unmarshal(run.Replay, rp))
+			}
+			res = scenarioC13(t, root, seed, rp)
 		case "c14":
 			var rp *c14Params
 			if len(run.Replay) > 0 {
